@@ -6,64 +6,64 @@ HERE = os.path.dirname(os.path.dirname(os.path.abspath(__file__)))
 
 # id -> (technique, level text, level note, design section)
 CHECKS = {
-    "C01": ("proptest generated exchange lists x generated I/O schedules; metamorphic (one-shot vs scheduled observation) + ground truth from the stream builder",
+    "C01": ("proptest generated exchange lists x generated I/O schedules; metamorphic (one-shot vs scheduled observation) + ground truth from the stream builder; thorough: coverage-guided (libFuzzer) search over the same choice tapes, same decoder and oracle",
             "each generated exchange list (1..3 responses on one stream, redirects followed) is run one-shot against the generator's ground truth and again under 1..3 generated schedules (persistent trickle / tiny-buffer styles) whose observation must be identical field by field, including the exact number of server bytes consumed",
             "trusted: stream builder (head model, chunk encoder), framing table, strict request-head parser and chunk decoder"),
-    "C09": ("enumerated configuration x server-behaviour menu with every accessor called at every step + proptest histories with premature advance attempts; state-graph model",
-            "37800-cell menu under the canonical schedule (all read-only calls interleaved, redirects followed and the followed flow run to completion) plus random histories with premature proceed() attempts in every state",
+    "C09": ("enumerated configuration x server-behaviour menu with every accessor called at every step + proptest histories with premature advance attempts; state-graph model; enumerated requests of every validity class (readiness <=> advancing, no panic); thorough: coverage-guided (libFuzzer) search over the same choice tapes, same decoder and oracle",
+            "37800-cell menu + 6804 requests of every validity class under the canonical schedule (all read-only calls interleaved, redirects followed and the followed flow run to completion) plus random histories with premature proceed() attempts in every state",
             "trusted: successor model (body due / Expect / refusal / framing table / 3xx), exchange driver"),
-    "C10": ("exhaustive enumeration of the close-condition product (145152 cells, second hop followed), of truncated 3xx heads (360) and of repeated interim responses (432) + proptest decorated exchanges; verdict formula oracle",
+    "C10": ("exhaustive enumeration of the close-condition product (145152 cells, second hop followed), of truncated 3xx heads (360) and of repeated interim responses (432) + proptest decorated exchanges; verdict formula oracle; thorough: coverage-guided (libFuzzer) search over the same choice tapes, same decoder and oracle",
             "complete over request version x Connection x method x Expect outcome x response version x status x framing x response Connection; Redirect and Cleanup compared",
             "trusted: five-condition formula as stated; reason text classified by keyword"),
-    "C11": ("proptest generated handshakes x every look-prefix length; per-window oracle + ground truth of the remaining exchange",
+    "C11": ("proptest generated handshakes x every look-prefix length; per-window oracle + ground truth of the remaining exchange; thorough: coverage-guided (libFuzzer) search over the same choice tapes, same decoder and oracle",
             "for every prefix length of every generated interim/final head a fresh flow is driven through Await100 and on to Cleanup in the branch the model prescribes",
             "trusted: head model, exchange ground truth"),
-    "C12": ("bounded-exhaustive strings over protocol alphabets after valid prefixes + proptest grammar-aware mutants of valid exchanges + coverage-guided libFuzzer (thorough); crash/overflow + count/subsequence oracle inside the driver",
-            "all strings up to length 6 (7) over a 10-symbol alphabet in 14 protocol states, 200k (30M) mutated exchanges (13 mutation kinds), and a libFuzzer campaign (8 workers x 1.5M runs) with dictionary and seed corpus, all through one tolerant driver with overflow checks on",
+    "C12": ("bounded-exhaustive strings over protocol alphabets after valid prefixes + proptest grammar-aware mutants of valid exchanges + coverage-guided libFuzzer on raw server bytes and on the mutant generator's choice tapes (thorough); crash/overflow + count/subsequence oracle inside the driver",
+            "all strings up to length 6 (7) over a 10-symbol alphabet in 14 protocol states, 200k (30M) mutated exchanges (14 mutation kinds incl. list-shaped field values), and a libFuzzer campaign (8 workers x 1.5M runs) with dictionary and seed corpus, all through one tolerant driver with overflow checks on",
             "trusted: tolerant driver; hang = bounded loops + watchdog (exit 2)"),
-    "C02": ("proptest generated requests (headers, redirect depth, APIs) + generated buffer-size schedules; strict-parse round trip against an effective-request model; metamorphic one-shot vs scheduled emission",
+    "C02": ("proptest generated requests (headers, redirect depth, APIs) + generated buffer-size schedules; strict-parse round trip against an effective-request model; metamorphic one-shot vs scheduled emission; thorough: coverage-guided (libFuzzer) search over the same choice tapes, same decoder and oracle",
             "each generated request is emitted one-shot and again under a schedule aimed at line boundaries; the head is parsed by a strict parser and compared field by field with the model, and the body actually sent is checked against the announced framing",
             "trusted: strict request-head parser, effective-request model (redirect suppression, automatic Host / framing)"),
-    "C13": ("exhaustive enumeration of all redirect chains of length <= 2 over the origin/form/policy pool (889k chains, caller-added credentials on every third hop) + proptest chains of 3..4 hops; credential-policy oracle from the generator's structure",
+    "C13": ("exhaustive enumeration of all redirect chains of length <= 2 over the origin/form/policy pool (889k chains, caller-added credentials on every third hop) + proptest chains of 3..4 hops; credential-policy oracle from the generator's structure; thorough: coverage-guided (libFuzzer) search over the same choice tapes, same decoder and oracle",
             "complete for chains up to 2 hops over 24 origins x 4 Location forms x 2 policies; random for longer chains",
             "trusted: structural target model (form semantics), strict request-head parser"),
-    "C14": ("proptest redirect chains with grammar-generated Locations; differential against an RFC 3986 section 5 reference resolver; RFC 5.4 tables and error-class tables enumerated",
+    "C14": ("proptest redirect chains with grammar-generated Locations; differential against an RFC 3986 section 5 reference resolver; RFC 5.4 tables and error-class tables enumerated; thorough: coverage-guided (libFuzzer) search over the same choice tapes, same decoder and oracle",
             "the reference resolver is written from the RFC pseudo code and validated on the RFC's own examples; chains make hop k+1 resolve against hop k",
             "trusted: model/rfc3986.rs; domain restricted to where RFC 3986 and WHATWG URL agree (DESIGN section 7)"),
-    "C16": ("proptest redirected flows (depth 0..3) with caller-added headers aimed at the suppressed names; strict-parse round trip",
+    "C16": ("proptest redirected flows (depth 0..3) with caller-added headers aimed at the suppressed names; strict-parse round trip; thorough: coverage-guided (libFuzzer) search over the same choice tapes, same decoder and oracle",
             "same machinery as C02 with the generator aimed at the combination redirect -> add -> serialise",
             "trusted: strict request-head parser, effective-request model"),
-    "C03": ("proptest stateful histories (vec of ops + interpreter) against an incremental strict chunk decoder + exhaustive small grid",
+    "C03": ("proptest stateful histories (vec of ops + interpreter) against an incremental strict chunk decoder + exhaustive small grid over 16 ways of reaching the body state; thorough: coverage-guided (libFuzzer) search over the same choice tapes, same decoder and oracle",
             "every call of a generated write history is fed to a reference decoder; invariant checked after every step; the (input, output, finish-output) grid is enumerated completely for small sizes",
             "trusted: harness strict chunk decoder; both public APIs (Flow<SendBody>, Call<WithBody>)"),
-    "C04": ("proptest stateful histories against a reference counter model + exhaustive small-scope histories",
+    "C04": ("proptest stateful histories against a reference counter model + exhaustive small-scope histories; body state reached directly, through Await100, or by despite-method with an added Content-Length; thorough: coverage-guided (libFuzzer) search over the same choice tapes, same decoder and oracle",
             "three operations (write, direct-write report, overshoot) interleaved at random with boundary-aimed lengths; a reference counter decides every result; N<=4 x all 4-op histories enumerated",
             "trusted: 10-line counter model; both public APIs"),
-    "C05": ("proptest generated heads x every prefix length; exact-parse oracle from the generator's structure; known finding by computed signature",
+    "C05": ("proptest generated heads x every prefix length; exact-parse oracle from the generator's structure; known finding by computed signature; thorough: coverage-guided (libFuzzer) search over the same choice tapes, same decoder and oracle",
             "every strict prefix of every generated head (<= 600 bytes) is offered to the parser, a Call and a Flow; the full head must parse back to exactly the generated status/version/fields",
             "trusted: harness head builder; HeaderMap order is compared per name"),
-    "C06": ("exhaustive enumeration of the framing decision table (3.0M cells) + proptest decorated heads + proptest request paths through the exchange driver; table oracle from RFC 9112 6.3 as worded in the property",
+    "C06": ("exhaustive enumeration of the framing decision table (3.0M cells) + proptest decorated heads + proptest request paths through the exchange driver; table oracle from RFC 9112 6.3 as worded in the property; thorough: coverage-guided (libFuzzer) search over the same choice tapes, same decoder and oracle",
             "the whole (method, status, version, Content-Length class, Transfer-Encoding class) table is enumerated on both APIs; cells the statement leaves open are explicit don't-cares; the same cells are reached after every Expect outcome, with HTTP/1.0 requests and with a body sent despite the method",
             "trusted: 25-line framing table; Call body mode identified by a probe read"),
-    "C07": ("bounded-exhaustive enumeration (all cut sets of short codings; all single/double structural cuts of the small-scope grammar) + proptest random codings/schedules; round-trip against the encoder's ground truth",
+    "C07": ("bounded-exhaustive enumeration (all cut sets of short codings; all single/double structural cuts of the small-scope grammar) + proptest random codings/schedules; enumerated chunk sizes beyond 32/63 bits; round-trip against the encoder's ground truth; thorough: coverage-guided (libFuzzer) search over the same choice tapes, same decoder and oracle",
             "small-scope hypothesis: every arrival composition of every coding up to 16 (19) bytes and every pair of structural cuts of the stated grammar, under 27 buffer/boundary-stop modes; random beyond",
             "trusted: harness chunk encoder (ground truth: payload, chunk map, boundaries)"),
-    "C08": ("proptest read histories against a reference counter + exhaustive small-scope schedules",
+    "C08": ("proptest read histories against a reference counter + exhaustive small-scope schedules; five routes to the head, redirect bodies, close conditions; thorough: coverage-guided (libFuzzer) search over the same choice tapes, same decoder and oracle",
             "(arrival, buffer) histories with windows reaching into a following response; every read is decided by min(window, space, remaining)",
             "trusted: counter model; bodies > 80000 bytes only partially materialised"),
     "C15": ("exhaustive enumeration of the redirect method table (21600 cells over three request paths) and of its variants (11520 cells: request version, own Content-Length, same-URI Locations, second hop)",
             "all 9 methods x all 100 3xx statuses x both policies x body/no body x Location present/absent x request path; complete for the stated domain, plus a second hop whose method is the one the first hop produced",
             "trusted: the table as worded in the property"),
-    "C17": ("exhaustive enumeration of the request-validity table (38160 cells, both APIs; 480 redirected requests) + proptest near-valid requests",
+    "C17": ("exhaustive enumeration of the request-validity table (38160 cells, both APIs; 5760 redirected requests incl. what the caller adds to the followed flow) + proptest near-valid requests; thorough: coverage-guided (libFuzzer) search over the same choice tapes, same decoder and oracle",
             "complete over the stated configuration menu; random stage balances accepted and rejected requests",
             "trusted: validity table as worded in the property; strict request head parser"),
-    "C20": ("proptest generated request/response heads x limits {0,1,4,128} x every prefix length; exact-parse oracle",
+    "C20": ("proptest generated request/response heads x limits {0,1,4,128} x every prefix length; exact-parse oracle; thorough: coverage-guided (libFuzzer) search over the same choice tapes, same decoder and oracle",
             "every strict prefix of every generated head, for all three public parsers, field counts aimed at N and N+1",
             "trusted: harness head builder"),
-    "C18": ("exhaustive enumeration of n + proptest random large n; round-trip through a strict reference chunk decoder",
-            "every output length 0..=30808 (both framings) is enumerated completely, larger n sampled: the formula and the writer are tied together by performing the write and decoding it",
+    "C18": ("exhaustive enumeration of n + proptest random large n; round-trip through a strict reference chunk decoder; thorough: coverage-guided (libFuzzer) search over the same choice tapes, same decoder and oracle",
+            "every output length 0..=30808 (chunked, length-delimited, HTTP/1.0, and eleven further request shapes / routes rotating with n) is enumerated completely, larger n sampled: the formula and the writer are tied together by performing the write and decoding it",
             "trusted: harness strict chunk decoder; public Flow API only"),
-    "C19": ("enumerated (output, input-ladder) grid + proptest whole-body loops; metamorphic monotonicity + strict chunk round-trip",
+    "C19": ("enumerated (output, input-ladder) grid + proptest whole-body loops and write histories; metamorphic monotonicity + strict chunk round-trip; thorough: coverage-guided (libFuzzer) search over the same choice tapes, same decoder and oracle",
             "all outputs 6..=11000 x an input ladder around every boundary, on both APIs; monotonicity in the input length and progress >= advertised maximum are checked pairwise",
             "trusted: harness strict chunk decoder; fresh sender per pair"),
 }
@@ -105,7 +105,7 @@ def main():
             "name": "hootverif",
             "path": "harness/",
             "serves_properties": sorted(CHECKS.keys()),
-            "kind_free_text": "Rust harness: choice-tape generators driven and shrunk by proptest 1.11, index-enumerated finite domains, reference models (strict head parser, strict chunk codec, RFC 9112 framing table, RFC 3986 resolver, state graph), replay files; libFuzzer target for C12",
+            "kind_free_text": "Rust harness: choice-tape generators driven and shrunk by proptest 1.11, index-enumerated finite domains, reference models (strict head parser, strict chunk codec, RFC 9112 framing table, RFC 3986 resolver, state graph), replay files; two libFuzzer targets: raw server bytes for C12, and a generic one that mutates the choice tape of any random stage (thorough tier of every property with a random stage)",
         }],
         "checks": checks,
         "notes": "Entry point ./check <ID> --tier quick|thorough [--replay FILE]; VERIF_SEED seeds every random stage; exit 0 held / 1 VIOLATION / 2 inconclusive (build failure, watchdog). Known findings: KNOWN_FINDINGS.txt.",
